@@ -1536,6 +1536,155 @@ def step_rules(ctx, prefix):
 
 # ------------------------------------------------------------------ C19
 
+def column_bookkeeping(ctx, f):
+    """Abstract interpretation (lib/absint.py) of one appender of StyleSheetOutput with a symbolic model of its two fields:
+    `s` is the sequence of pieces appended since entry (literal text or an opaque piece), `utf16_len` is the entry value plus
+    a constant plus the UTF-16 length of a set of pieces (`self.s[start..].encode_utf16().count()` with `start` taken from
+    `self.s.len()` measures the pieces appended since then).  Private/public helper methods of the type are entered.
+    -> (problems, undecided: bool); problems are per path:
+       every appended piece is counted exactly once by the time the method returns, and a source-map entry is registered
+       with a column that covers exactly the separator written before the token's own text"""
+    import absint as ai
+    sc = ctx.sc
+    helpers = {g.name: g for g in sc.fns if g.base == "StyleSheetOutput" and g.body and g is not f}
+    pn = [x for x in f.param_names() if x and x != "self"]
+
+    def is_s(e):
+        e = sir.strip_ref(e)
+        while e.get("k") == "paren":
+            e = sir.strip_ref(e["e"])
+        return e.get("k") == "field" and e["name"] == "s" and sir.expr_str(e["base"]) == "self"
+
+    def append(st, piece):
+        cur = st.env.get("$f:s", ())
+        return st.set("$f:s", cur + (piece,))
+
+    def piece_of(it, a, st):
+        a1 = sir.strip_ref(a)
+        if a1.get("k") == "lit" and a1.get("t") in ("str", "char"):
+            return ("lit", a1["v"])
+        if sir.const_text(a1) is not None:
+            return ("lit", sir.const_text(a1))
+        if a1.get("k") == "path" and len(a1["segs"]) == 1 and a1["segs"][0] in pn:
+            return ("arg", a1["segs"][0])
+        return ("sym", id(a))
+
+    def hooks(it, e, st):
+        k = e.get("k")
+        wf = sir.write_fmt_call(e) if k in ("mcall", "mac") else None
+        if wf is not None and is_s(wf[0]):
+            s2 = st
+            for p_ in wf[1]:
+                s2 = append(s2, ("lit", p_[1]) if p_[0] == "lit" else piece_of(it, p_[1], st) if p_[1] is not None else ("sym", id(e)))
+            return [(("Ok", ai.UNIT), s2)]
+        if k == "mcall" and e["m"] in ("push", "push_str") and is_s(e["recv"]) and len(e["args"]) == 1:
+            return [(ai.UNIT, append(st, piece_of(it, e["args"][0], st)))]
+        if k == "binary" and e["op"] == "+=" and is_s(e["l"]):
+            return [(ai.UNIT, append(st, piece_of(it, e["r"], st)))]
+        if k in ("mcall", "call") and any(is_s(a) for a in e["args"]) and not (k == "mcall" and e["m"] in ("push", "push_str")):
+            # something serialises itself into the buffer (`token.to_css(&mut self.s)`)
+            return [(("Ok", ai.UNIT), append(st, ("sym", id(e))))]
+        if k == "mcall" and e["m"] == "len" and not e["args"] and is_s(e["recv"]):
+            return [(("IDX", len(st.env.get("$f:s", ()))), st)]
+        if k == "index" and is_s(e["base"]) and e["idx"].get("k") == "range" and e["idx"].get("from") is not None and e["idx"].get("to") is None:
+            vs = [o.value for o in it.ev(e["idx"]["from"], st) if o.kind == "val"]
+            if len(vs) == 1 and isinstance(vs[0], tuple) and vs[0][:1] == ("IDX",):
+                return [(("SLICE", vs[0][1], len(st.env.get("$f:s", ()))), st)]
+            return [(ai.UNK, st)]
+        if (k == "mcall" and e["m"] == "count" and not e["args"]) or (k == "mcall" and e["m"] in ("sum",) and not e["args"]):
+            inner = e["recv"]
+            src = None
+            if inner.get("k") == "mcall" and inner["m"] == "encode_utf16":
+                src = inner["recv"]
+            elif inner.get("k") == "call" and (sir.call_path(inner) or "").endswith("encode_utf16") and inner["args"]:
+                src = inner["args"][0]
+            elif inner.get("k") == "mcall" and inner["m"] == "map" and "len_utf16" in sir.expr_str(inner) and inner["recv"].get("k") == "mcall" and inner["recv"]["m"] == "chars":
+                src = inner["recv"]["recv"]
+            if src is not None:
+                vs = [o.value for o in it.ev(src, st) if o.kind == "val"]
+                v = vs[0] if len(vs) == 1 else ai.UNK
+                if isinstance(v, tuple) and v[:1] == ("SLICE",):
+                    return [(("U16", frozenset(range(v[1], v[2])), frozenset()), st)]
+                s1 = sir.strip_ref(src)
+                if s1.get("k") == "path" and len(s1["segs"]) == 1 and s1["segs"][0] in pn:
+                    return [(("U16", frozenset(), frozenset([s1["segs"][0]])), st)]
+                return [(ai.UNK, st)]
+        if k == "mcall" and e["m"] == "add_raw" and len(e["args"]) >= 4:
+            return [(ai.UNIT, st.event(("entry", st.env.get("$f:utf16_len"), len(st.env.get("$f:s", ())), tuple(sir.expr_str(a).replace(" ", "") for a in e["args"][:4]))))]
+        if k == "mcall" and e["m"] in ("needs_separator_when_before", "is_sign_negative", "serialization_type"):
+            return [(ai.FREE, st)]
+        return None
+
+    def compound(place, op, cur, b):
+        if place == "$f:utf16_len" and op == "+=" and isinstance(cur, tuple) and cur[:1] == ("COL",):
+            if b == 1:
+                return ("COL", cur[1] + 1, cur[2], cur[3], cur[4])
+            if isinstance(b, tuple) and b[:1] == ("U16",):
+                dup = bool(cur[2] & b[1]) or bool(cur[3] & b[2])
+                return ("COL", cur[1], cur[2] | b[1], cur[3] | b[2], cur[4] or dup)
+            return ai.UNK
+        return ai.UNK
+    it = ai.Interp(hooks=hooks, idx=sc, inline=helpers)
+    it.field_vars = {"s", "utf16_len"}
+    it.compound = compound
+    it.max_paths = 2000
+    env = {x: ai.FREE for x in pn}
+    env.update({"self": ai.FREE, "$f:s": (), "$f:utf16_len": ("COL", 0, frozenset(), frozenset(), False)})
+    try:
+        outs = [o for o in it.run(f.body, env) if ("$error-exit",) not in o.events]
+    except ai.TooManyPaths:
+        return [], True
+    problems, undecided = [], False
+
+    def covers(col, pieces, upto=None):
+        """None if `col` accounts for exactly pieces[:upto] (all when upto is None), else a description"""
+        if not (isinstance(col, tuple) and col[:1] == ("COL",)):
+            return "?"
+        want = range(len(pieces) if upto is None else upto)
+        if col[4]:
+            return "a piece is counted twice"
+        const_need = 0
+        for i in want:
+            p_ = pieces[i]
+            if i in col[2] or (p_[0] == "arg" and p_[1] in col[3]):
+                continue
+            if p_[0] == "lit" and p_[1].isascii():
+                const_need += len(p_[1])
+                continue
+            return "piece %d (%s) is appended but not counted" % (i, p_[1] if p_[0] != "sym" else "serialised text")
+        extra = [i for i in col[2] if i not in want]
+        if extra:
+            return "pieces %s are counted although they belong to the token text" % sorted(extra)
+        if const_need != col[1]:
+            return "constant part of the column is %d, the uncounted ASCII literals need %d" % (col[1], const_need)
+        return None
+    for o in outs:
+        pieces = o.st.env.get("$f:s", ())
+        col = o.st.env.get("$f:utf16_len")
+        r = covers(col, pieces)
+        if r is not None:
+            if r == "?" or o.tainted and "?" in r:
+                undecided = True
+            else:
+                problems.append("at return: " + r)
+        for ev in o.events:
+            if ev[0] != "entry":
+                continue
+            # the column of the entry covers the pieces in front of the token text: the leading separator blanks
+            lead = 0
+            while lead < ev[2] and pieces[lead] == ("lit", " "):
+                lead += 1
+            r = covers(ev[1], pieces, lead)
+            if r is not None:
+                if r == "?":
+                    undecided = True
+                else:
+                    problems.append("at the source-map entry: " + r)
+            if ev[2] <= lead and len(pieces) > lead and False:
+                pass
+    return sorted(set(problems)), undecided or not outs
+
+
 def sourcemap_rules(ctx, prefix):
     ob = ctx.ob
     obs = []
@@ -1648,6 +1797,12 @@ def sourcemap_rules(ctx, prefix):
             name_ok = any(n.get("k") == "mcall" and n["m"] == "add_name" for n in nodes) and any(n.get("k") == "mcall" and n["m"] == "to_css_string" for n in nodes)
             if not name_ok:
                 problems.append("rewritten tokens do not register their original spelling as name")
+        # the counting itself is decided on abstract paths; the syntactic reading above is kept for what the model does not
+        # cover (argument order of the entry, the registered name) and as the verdict when the model cannot follow the code
+        sym_problems, sym_und = column_bookkeeping(ctx, f)
+        if not sym_und:
+            keep = [p_ for p_ in problems if p_.startswith(("source-map entry is (", "rewritten tokens"))]
+            problems = keep + sym_problems
         obs.append(ob("%s.col/%s" % (prefix, name), not problems, where, "; ".join(problems) if problems else "column bookkeeping of %s follows the bytes it appends" % name,
                       witness=None if not problems else "a non-ASCII character before a token shifts every later generated column"))
     # C19.src: rewrites pass the original token as src
